@@ -41,6 +41,12 @@ DenInv(prog, n) == [j \in 1..2 * n |-> Backward(prog, IdMap(n)[j])]
 ItemsConsistent(prog) == \A j \in 1..Len(prog) :
     prog[j].k = "map" => IsInverse(prog[j].m, prog[j].mi) /\ MapN(prog[j].m) = Len(prog[j].qs)
 
+\* wire format of program items
+DecItem(w) == IF w.k = "gen" THEN [k |-> "gen", qs |-> w.qs, g |-> Dec(w.g)]
+              ELSE IF w.k = "map" THEN [k |-> "map", qs |-> w.qs, m |-> DecM(w.m), mi |-> DecM(w.mi)]
+              ELSE [k |-> "mz", qs |-> w.qs]
+DecProg(ws) == [j \in 1..Len(ws) |-> DecItem(ws[j])]
+
 \* ---- layouts: a sequence of layers; a layer is a sequence of program indices (a measurement layer
 \* is the one-element layer holding the index of its "mz" item)
 Flat(layers) == LET RECURSIVE F(_)
